@@ -164,10 +164,10 @@ def run(chk):
             chk.ob("R4 refusal", "R4|make_credential|before-creation", dom and not reach_after and len(gen) >= 3, where(mc, dec[-1][0]),
                    "key/id generation and save are reachable only through the non-refusing edges %s of the rk decision, and not from the refusal: %s" % (pass_edges, dom and not reach_after))
         # R5
-        ag = find_aggs(mc, "Passkey")
-        if chk.require("R5 stored handle", "R5|Passkey", len(ag) == 1, where(mc), "Passkey construction not found"):
-            bb, i, rv = ag[0]
-            uh = N.norm(T.operand(rv["ops"][rv["fields"].index("user_handle")], bb, i))
+        from .common import saved_passkey
+        rec, bb = saved_passkey(p, mc, T, N)
+        if chk.require("R5 stored handle", "R5|Passkey", rec is not None and "user_handle" in rec, where(mc), "saved Passkey record not found"):
+            uh = rec["user_handle"]
             # normal form: a selection on one boolean test with Some(value) on its true edge and None on its false edge
             sel = {}
             cond = None
@@ -207,6 +207,12 @@ def run(chk):
                     other = [x for x in e[0] if x != some_true]
                     if other:
                         return other[0]
+            # `match m { Some(true) => .. }` / `m.is_some_and(|b| b)`: m is present and its content is true
+            for t, l, fn, w2 in o.conds:
+                a, pol = flow.bool_atom(t, l)
+                m = flow.payload_subject(a)
+                if pol is True and m is not None and any(flow.asserts_ok(t2, l2, lambda x: x == m) for t2, l2, f2, w3 in o.conds):
+                    return m
             return None
         clo_ok = bool(present)
         for o, cp in present:
